@@ -1,8 +1,9 @@
 /-
 C17 — Periodic transmissions run exactly when and with what the API state says.
 
-Theorems about `CanopenModel/Periodic.lean` (SYNC producer, PDO maps, heartbeat producer with the
-0x1017 hook and the NMT state, node guarding, `PeriodicMessageTask.update` on buses with and
+Theorems about `CanopenModel/Periodic.lean` (SYNC producer, PDO maps — including `start()` without a
+period after the period was given by an earlier start, by assignment to the `period` attribute or
+measured by `on_message` —, heartbeat producer with the 0x1017 hook and the NMT state, node guarding, `PeriodicMessageTask.update` on buses with and
 without `modify_data`, `Network.disconnect`).  Every statement quantifies over every configuration
 `c` (bus flavour, SYNC COB-ID, any set of nodes and PDO maps), every fresh network `s0` (no task
 registered, no handle set; every attribute — COB-IDs, payloads, periods, NMT states, heartbeat
@@ -15,7 +16,7 @@ The model follows the repaired code for findings F3 (`SyncProducer.start` stops 
 first) and F13 (`PeriodicMessageTask` snapshots the payload it is given); the counterexample for
 the unrepaired `start` is `unrepaired_sync_start_leaks`.
 -/
-import CanopenProofs.Lemmas.PeriodicCurrent
+import CanopenProofs.Lemmas.PeriodicPeriod
 
 namespace Canopen.C17
 open Canopen Canopen.Periodic
@@ -94,7 +95,7 @@ theorem at_most_one (c : Cfg) (s0 : State) (h0 : Fresh s0) (ops : List Op) (o : 
 example : ∃ c s0 ops, Fresh s0 ∧ (liveOwned (run c s0 ops) .sync).length = 1 :=
   ⟨⟨false, 0x80, [], [], []⟩,
    ⟨⟨0, fun _ => ⟨0, [], false, 0, .sync, false⟩⟩, true, fun _ => none, none,
-    fun _ _ => ⟨none, 0, [], none⟩, fun _ => ⟨0, 0, none⟩⟩,
+    fun _ _ => ⟨none, 0, [], none, none⟩, fun _ => ⟨0, 0, none⟩, 0⟩,
    [.syncStart (some 100000), .syncStart (some 200000)], ⟨rfl, fun _ => rfl⟩, by decide⟩
 
 /-! ## T running_iff_api -/
@@ -129,7 +130,9 @@ theorem running_iff_api (c : Cfg) (s0 : State) (h0 : Fresh s0) (ops : List Op) (
     SYNC: `sync.cob_id`, no data, `sync.period`; PDO map: `cob_id`, `data`, `period`;
     heartbeat: `0x700 + id`, `[nmt._state]`, `_heartbeat_time_ms`; node guarding: RTR on `0x700 + id`.
     Holds after every history in which no `NmtSlave.send_command` / state setter raised after having
-    changed the NMT state (`CleanRun`; see `raising_state_change_breaks_current` for why). -/
+    changed the NMT state and nobody assigned the `period` attribute of a producer whose task was
+    running (`CleanRun`; see `raising_state_change_breaks_current` and
+    `period_assignment_while_running_breaks_current` for why). -/
 theorem live_is_current (c : Cfg) (s0 : State) (h0 : Fresh s0) (ops : List Op) (hcl : CleanRun c s0 ops) :
     let s := run c s0 ops
     ∀ i, i ∈ liveTasks s →
@@ -147,14 +150,16 @@ theorem live_is_current (c : Cfg) (s0 : State) (h0 : Fresh s0) (ops : List Op) (
   rw [ag.2.2.1, ag.2.2.2.1, ag.2.2.2.2.1, ag.2.2.2.2.2]
   exact w
 
-/-- histories made of calls that are not NMT state changes are clean, whatever they do -/
+/-- histories made of calls that are neither NMT state changes nor assignments to a `period`
+    attribute are clean, whatever they do -/
 theorem cleanRun_of_no_state_change (c : Cfg) (s : State) (ops : List Op)
-    (h : ∀ op ∈ ops, op.nmtNode = none) : CleanRun c s ops := by
+    (h : ∀ op ∈ ops, op.nmtNode = none ∧ op.assigns = none) : CleanRun c s ops := by
   induction ops generalizing s with
   | nil => trivial
   | cons op r ih =>
-    refine ⟨?_, ih _ (fun op' hm => h op' (List.mem_cons_of_mem _ hm))⟩
-    intro n hn; rw [h op (by simp)] at hn; cases hn
+    refine ⟨⟨?_, ?_⟩, ih _ (fun op' hm => h op' (List.mem_cons_of_mem _ hm))⟩
+    · intro n hn; rw [(h op (by simp)).1] at hn; cases hn
+    · intro o ho; rw [(h op (by simp)).2] at ho; cases ho
 
 theorem applyCmd_connected (s : State) (n code : Nat) : (applyCmd s n code).connected = s.connected := by
   unfold applyCmd; split <;> rfl
@@ -183,10 +188,13 @@ theorem sendCommand_ok (c : Cfg) (s : State) (n code : Nat) (hc : s.connected = 
   · rfl
 
 /-- On a connected network whose local node can read object 0x1017 every NMT state change of that
-    node is clean: the hypothesis of `live_is_current` only excludes state changes after
-    `disconnect()` and boots of nodes without a value for 0x1017. -/
+    node is clean, and so is every other call that is not an assignment to the `period` attribute of
+    a producer whose task is running: the hypothesis of `live_is_current` only excludes state changes
+    after `disconnect()`, boots of nodes without a value for 0x1017, and such assignments. -/
 theorem state_change_clean (c : Cfg) (s : State) (op : Op) (hc : s.connected = true)
-    (hr : ∀ n, op.nmtNode = some n → (s.slave n).od1017.isSome = true) : Clean c s op := by
+    (hr : ∀ n, op.nmtNode = some n → (s.slave n).od1017.isSome = true)
+    (hp : ∀ o, op.assigns = some o → Idle s o) : Clean c s op := by
+  refine ⟨?_, hp⟩
   intro n hn
   unfold step
   by_cases hw : op.wellAddressed c = true
@@ -207,7 +215,7 @@ theorem state_change_clean (c : Cfg) (s : State) (op : Op) (hc : s.connected = t
 def exCfg : Cfg := ⟨false, 0x80, [(7, 1)], [5], [7]⟩
 def exState : State :=
   ⟨⟨0, fun _ => ⟨0, [], false, 0, .sync, false⟩⟩, true, fun _ => none, none,
-   fun _ _ => ⟨some 0x207, 2, [0, 0], none⟩, fun _ => ⟨0, 0, some 100⟩⟩
+   fun _ _ => ⟨some 0x207, 2, [0, 0], none, none⟩, fun _ => ⟨0, 0, some 100⟩, 0⟩
 theorem exState_fresh : Fresh exState := ⟨rfl, fun _ => rfl⟩
 
 /-- non-vacuity: a clean history with state changes, updates and restarts that leaves four
@@ -218,7 +226,8 @@ example : CleanRun exCfg exState
     liveTasks (run exCfg exState
       [.sendCommand 5 128, .pdoStart 7 1 (some 1000), .pdoSetByte 7 1 0 9, .sendCommand 5 1,
        .syncStart (some 5000), .guardStart 7 20000]) = [2, 3, 4, 5] := by
-  refine ⟨⟨?_, ?_, ?_, ?_, ?_, ?_, trivial⟩, by decide⟩ <;> intro n hn <;>
+  refine ⟨⟨?_, ?_, ?_, ?_, ?_, ?_, trivial⟩, by decide⟩ <;>
+    refine ⟨fun n hn => ?_, fun o ho => by cases ho⟩ <;>
     first | (left; decide) | (cases hn)
 
 /-! ## T restart_replaces -/
@@ -559,6 +568,236 @@ example : liveTasks (run exCfg exState [.pdoStart 7 1 (some 1000), .syncStart (s
     liveTasks (step exCfg (run exCfg exState [.pdoStart 7 1 (some 1000), .syncStart (some 5000)])
       .disconnect).1 = [1] := by decide
 
+/-! ## T restart_without_period, start_without_period_refused -/
+
+/-- `start()` without a period, for the producers whose `start` takes an optional one -/
+def restartOp : Owner → Option Op
+  | .sync => some (.syncStart none)
+  | .pdo n k => some (.pdoStart n k none)
+  | _ => none
+
+/-- the CAN id and payload the API state of such a producer holds -/
+def cobOf (c : Cfg) (s : State) : Owner → Option Nat
+  | .sync => some c.syncCob
+  | .pdo n k => (s.pdo n k).cob
+  | _ => none
+
+def dataOf (s : State) : Owner → Bytes
+  | .pdo n k => (s.pdo n k).data
+  | _ => []
+
+/-- the calls that hand a producer a period: `start(v)` and the assignment `period = v` -/
+def gives : Op → Option (Owner × Nat)
+  | .syncStart (some v) => some (.sync, v)
+  | .syncSetPeriod (some v) => some (.sync, v)
+  | .pdoStart n k (some v) => some (.pdo n k, v)
+  | .pdoSetPeriod n k (some v) => some (.pdo n k, v)
+  | _ => none
+
+theorem gives_sets_period (c : Cfg) (s : State) (g : Op) (o : Owner) (v : Nat) (hg : gives g = some (o, v))
+    (hval : c.valid o = true) : periodOf (step c s g).1 o = some v := by
+  cases g with
+  | syncStart p =>
+    cases p with
+    | none => cases hg
+    | some v' =>
+      simp only [gives, Option.some.injEq, Prod.mk.injEq] at hg
+      obtain ⟨rfl, rfl⟩ := hg
+      have hw : (Op.syncStart (some v')).wellAddressed c = true := rfl
+      simp only [step, hw, if_true, exec, periodOf]
+      exact syncStart_some_period c s v'
+  | syncSetPeriod p =>
+    cases p with
+    | none => cases hg
+    | some v' =>
+      simp only [gives, Option.some.injEq, Prod.mk.injEq] at hg
+      obtain ⟨rfl, rfl⟩ := hg
+      rfl
+  | pdoStart n k p =>
+    cases p with
+    | none => cases hg
+    | some v' =>
+      simp only [gives, Option.some.injEq, Prod.mk.injEq] at hg
+      obtain ⟨rfl, rfl⟩ := hg
+      have hw : (Op.pdoStart n k (some v')).wellAddressed c = true := hval
+      simp only [step, hw, if_true, exec, periodOf]
+      exact pdoStart_some_period s n k v'
+  | pdoSetPeriod n k p =>
+    cases p with
+    | none => cases hg
+    | some v' =>
+      simp only [gives, Option.some.injEq, Prod.mk.injEq] at hg
+      obtain ⟨rfl, rfl⟩ := hg
+      have hw : (Op.pdoSetPeriod n k (some v')).wellAddressed c = true := hval
+      simp only [step, hw, if_true, exec, periodOf, pdoSetPeriod, setPdo_same]
+  | _ => cases hg
+
+theorem validPeriod_pos {v : Nat} (hv : 0 < v) : validPeriod (some v) = some v := by
+  cases v with
+  | zero => omega
+  | succ n => rfl
+
+/-- with a remembered period `v > 0`, a COB-ID and a connected network, the tail of `start()` registers
+    exactly one task: `(id, d, v)` -/
+theorem startIfValid_go {o : Owner} (hn : NoLive s o) (v id : Nat) (d : Bytes) (hv : 0 < v)
+    (hc : s.connected = true) :
+    (startIfValid s o (some v) (some id) d).2 = true ∧
+    liveOwned (startIfValid s o (some v) (some id) d).1 o = [s.bus.n] ∧
+    (startIfValid s o (some v) (some id) d).1.bus.task s.bus.n = ⟨id, d, false, v, o, true⟩ := by
+  unfold startIfValid
+  rw [validPeriod_pos hv]
+  simp only []
+  rw [startSlot_ok _ _ _ _ _ _ hc]
+  exact ⟨rfl, liveOwned_send hn id d v false _, by simp [Bus.send_task]⟩
+
+theorem startIfValid_refuse (s : State) (o : Owner) (p id : Option Nat) (d : Bytes)
+    (hp : p = none ∨ p = some 0) : startIfValid s o p id d = (s, false) := by
+  rcases hp with rfl | rfl <;> rfl
+
+/-- one `start()` without argument in a state whose remembered period is `v > 0` -/
+theorem restart_step (hi : Inv c s) (o : Owner) (rop : Op) (hr : restartOp o = some rop) (v id : Nat)
+    (hp : periodOf s o = some v) (hv : 0 < v) (hc : s.connected = true) (hid : cobOf c s o = some id)
+    (hval : c.valid o = true) :
+    (step c s rop).2 = true ∧ liveOwned (step c s rop).1 o = [s.bus.n] ∧
+    (step c s rop).1.bus.task s.bus.n = ⟨id, dataOf s o, false, v, o, true⟩ := by
+  cases o with
+  | sync =>
+    cases hr
+    simp only [cobOf, Option.some.injEq] at hid
+    subst hid
+    have hw : (Op.syncStart none).wellAddressed c = true := rfl
+    have n1 := noLive_stopKeep hi .sync
+    have hp' : (stopKeep s .sync).syncPeriod = some v := by simpa [periodOf] using hp
+    have r := startIfValid_go n1 v c.syncCob [] hv (by simpa using hc)
+    simp only [stopKeep_bus_n] at r
+    simp only [step, hw, if_true, exec, syncStart, hp', dataOf]
+    exact r
+  | pdo n k =>
+    cases hr
+    have hw : (Op.pdoStart n k none).wellAddressed c = true := hval
+    have n1 := noLive_stopClear hi (.pdo n k)
+    have hp' : (s.pdo n k).period = some v := hp
+    have hid' : (s.pdo n k).cob = some id := hid
+    have r := startIfValid_go n1 v id (s.pdo n k).data hv (by simpa using hc)
+    simp only [stopClear_bus_n] at r
+    simp only [step, hw, if_true, exec, pdoStart, dataOf, stopClear_pdo, hp', hid']
+    exact r
+  | hb n => cases hr
+  | guard n => cases hr
+
+/-- one `start()` without argument in a state that remembers no period (`None`, or the falsy `0`):
+    refused, and nothing of this producer is left running -/
+theorem refused_step (hi : Inv c s) (o : Owner) (rop : Op) (hr : restartOp o = some rop)
+    (hp : periodOf s o = none ∨ periodOf s o = some 0) :
+    (step c s rop).2 = false ∧ liveOwned (step c s rop).1 o = [] := by
+  rw [liveOwned_nil_iff]
+  cases o with
+  | sync =>
+    cases hr
+    have hw : (Op.syncStart none).wellAddressed c = true := rfl
+    have hp' : (stopKeep s .sync).syncPeriod = none ∨ (stopKeep s .sync).syncPeriod = some 0 := by
+      simpa [periodOf] using hp
+    simp only [step, hw, if_true, exec, syncStart, startIfValid_refuse _ _ _ _ _ hp']
+    exact ⟨trivial, noLive_stopKeep hi .sync⟩
+  | pdo n k =>
+    cases hr
+    by_cases hw : (Op.pdoStart n k none).wellAddressed c = true
+    · have hp' : ((stopClear s (.pdo n k)).pdo n k).period = none ∨
+          ((stopClear s (.pdo n k)).pdo n k).period = some 0 := by simpa [periodOf] using hp
+      simp only [step, hw, if_true, exec, pdoStart, startIfValid_refuse _ _ _ _ _ hp']
+      exact ⟨trivial, noLive_stopClear hi (.pdo n k)⟩
+    · have hw' : (Op.pdoStart n k none).wellAddressed c = false := by simpa using hw
+      simp only [step, hw', Bool.false_eq_true, if_false]
+      exact ⟨trivial, noLive_of_invalid hi hw'⟩
+  | hb n => cases hr
+  | guard n => cases hr
+
+/-- **Restart without a period.**  In any history, once a producer has been handed a period `v > 0`
+    (by `start(v)` — whether or not that call itself succeeded — or by assigning its `period`
+    attribute) and no later call wrote that attribute (stops, updates, restarts without argument,
+    calls on other producers, disconnect of *other* things … are all allowed in between), a `start()`
+    without argument on a connected network returns normally and leaves exactly one task of this
+    producer running — the one it created — carrying the producer's COB-ID, its current payload and the
+    period `v`. -/
+theorem restart_without_period (c : Cfg) (s0 : State) (h0 : Fresh s0) (pre mid : List Op) (g rop : Op)
+    (o : Owner) (v id : Nat) (hr : restartOp o = some rop) (hg : gives g = some (o, v)) (hv : 0 < v)
+    (hval : c.valid o = true) (hmid : ∀ op ∈ mid, touches o op = false) :
+    let s := run c s0 (pre ++ g :: mid)
+    s.connected = true → cobOf c s o = some id →
+    (step c s rop).2 = true ∧ liveOwned (step c s rop).1 o = [s.bus.n] ∧
+    (step c s rop).1.bus.task s.bus.n = ⟨id, dataOf s o, false, v, o, true⟩ := by
+  intro s hc hid
+  have hi : Inv c s := inv_run h0.inv _
+  have hp : periodOf s o = some v := by
+    simp only [s, run_append, run]
+    rw [period_kept_run c _ mid o hmid]
+    exact gives_sets_period c _ g o v hg hval
+  exact restart_step hi o rop hr v id hp hv hc hid hval
+
+/-- **A start without any period is refused.**  If the producer's `period` attribute is `None` (or
+    the falsy 0) at some point of a history — in particular on a fresh producer — and no later call
+    writes it, `start()` without argument raises and leaves none of its tasks running. -/
+theorem start_without_period_refused (c : Cfg) (s0 : State) (h0 : Fresh s0) (pre mid : List Op) (rop : Op)
+    (o : Owner) (hr : restartOp o = some rop)
+    (hnone : periodOf (run c s0 pre) o = none ∨ periodOf (run c s0 pre) o = some 0)
+    (hmid : ∀ op ∈ mid, touches o op = false) :
+    let s := run c s0 (pre ++ mid)
+    (step c s rop).2 = false ∧ liveOwned (step c s rop).1 o = [] := by
+  intro s
+  have hi : Inv c s := inv_run h0.inv _
+  have hp : periodOf s o = periodOf (run c s0 pre) o := by
+    simp only [s, run_append]
+    exact period_kept_run c _ mid o hmid
+  exact refused_step hi o rop hr (by rw [hp]; exact hnone)
+
+/-- The `period` attribute of a producer is written only by a start with a period, by an assignment,
+    and (PDO map) by a frame received while the map does not transmit; in particular `stop()`,
+    `PdoBase.stop()` and `disconnect()` keep it. -/
+theorem period_kept (c : Cfg) (s : State) (ops : List Op) (o : Owner)
+    (h : ∀ op ∈ ops, touches o op = false) : periodOf (run c s ops) o = periodOf s o :=
+  period_kept_run c s ops o h
+
+/-- What a received frame does to a PDO map: while it transmits, nothing; otherwise payload and stamp
+    are taken over and the period becomes the time since the previous accepted frame. -/
+theorem received_frame_measures_period (c : Cfg) (s : State) (n k dt : Nat) (d : Bytes)
+    (hval : c.valid (.pdo n k) = true) :
+    let s' := (step c s (.pdoReceive n k dt d)).1
+    (s.slots (.pdo n k) ≠ none → s'.pdo n k = s.pdo n k) ∧
+    (s.slots (.pdo n k) = none → (s'.pdo n k).data = d ∧
+      (∀ t0, (s.pdo n k).stamp = some t0 → (s'.pdo n k).period = some (s.now + dt - t0)) ∧
+      ((s.pdo n k).stamp = none → (s'.pdo n k).period = (s.pdo n k).period)) ∧
+    s'.slots = s.slots ∧ s'.bus.n = s.bus.n := by
+  have hw : (Op.pdoReceive n k dt d).wellAddressed c = true := hval
+  simp only [step, hw, if_true, exec, pdoReceive]
+  cases hs : s.slots (.pdo n k) with
+  | some t => simp
+  | none =>
+    simp only [setPdo_same, received]
+    refine ⟨fun h => absurd rfl h, fun _ => ⟨trivial, ?_, ?_⟩, rfl, rfl⟩
+    · intro t0 ht0; simp [ht0]
+    · intro hn; simp [hn]
+
+/-- non-vacuity: period given, data changed, stopped, restarted without period (both producers);
+    and the refusals -/
+example :
+    let s := run exCfg exState [.pdoStart 7 1 (some 50000), .pdoSetByte 7 1 0 9, .pdoStop 7 1]
+    (step exCfg s (.pdoStart 7 1 none)).2 = true ∧
+    liveOwned (step exCfg s (.pdoStart 7 1 none)).1 (.pdo 7 1) = [2] ∧
+    ((step exCfg s (.pdoStart 7 1 none)).1.bus.task 2).period = 50000 ∧
+    ((step exCfg s (.pdoStart 7 1 none)).1.bus.task 2).data = [9, 0] := by decide
+
+example :
+    let s := run exCfg exState [.syncSetPeriod (some 7000), .syncStart none, .syncStop, .disconnect]
+    liveOwned s .sync = [] ∧ periodOf s .sync = some 7000 ∧
+    (step exCfg exState (.syncStart none)).2 = false ∧
+    (step exCfg exState (.pdoStart 7 1 none)).2 = false ∧
+    (step exCfg (run exCfg exState [.pdoReceive 7 1 100 [1, 2], .pdoReceive 7 1 250 [3, 4]])
+      (.pdoStart 7 1 none)).2 = true ∧
+    liveTasks (run exCfg exState [.pdoReceive 7 1 100 [1, 2], .pdoReceive 7 1 250 [3, 4],
+      .pdoStart 7 1 none]) = [0] ∧
+    ((run exCfg exState [.pdoReceive 7 1 100 [1, 2], .pdoReceive 7 1 250 [3, 4],
+      .pdoStart 7 1 none]).bus.task 0).period = 250 := by decide
+
 /-! ## small facts -/
 
 /-- the heartbeat payload is one byte: every state of `COMMAND_TO_STATE` is < 256 -/
@@ -587,11 +826,21 @@ theorem unrepaired_sync_start_leaks :
 theorem raising_state_change_breaks_current :
     (let c : Cfg := ⟨false, 0x80, [], [5], []⟩
      let s0 : State := ⟨⟨0, fun _ => ⟨0, [], false, 0, .sync, false⟩⟩, true, fun _ => none, none,
-       fun _ _ => ⟨none, 0, [], none⟩, fun _ => ⟨0, 0, none⟩⟩
+       fun _ _ => ⟨none, 0, [], none, none⟩, fun _ => ⟨0, 0, none⟩, 0⟩
      let s := run c s0 [.hbStart 5 100, .sendCommand 5 128]
      liveOwned s (.hb 5) = [0] ∧ (s.bus.task 0).data = [0] ∧ (s.slave 5).st = 127) ∧
     (let s := run exCfg exState [.hbStart 5 100, .sendCommand 5 1, .disconnect, .sendCommand 5 129]
      liveOwned s (.hb 5) = [1] ∧ (s.bus.task 1).data = [5] ∧ (s.slave 5).st = 0) := by
+  decide
+
+/-- Why `live_is_current` asks for `CleanRun` (second half): assigning the `period` attribute of a
+    producer whose task is running does not reach the task — it keeps the old period while the
+    attribute says the new one (PDO map and SYNC alike). -/
+theorem period_assignment_while_running_breaks_current :
+    (let s := run exCfg exState [.pdoStart 7 1 (some 1000), .pdoSetPeriod 7 1 (some 2000)]
+     liveOwned s (.pdo 7 1) = [0] ∧ (s.bus.task 0).period = 1000 ∧ (s.pdo 7 1).period = some 2000) ∧
+    (let s := run exCfg exState [.syncStart (some 1000), .syncSetPeriod (some 2000)]
+     liveOwned s .sync = [0] ∧ (s.bus.task 0).period = 1000 ∧ s.syncPeriod = some 2000) := by
   decide
 
 end Canopen.C17
